@@ -86,6 +86,31 @@ def run(prog: Program, rep: Report, tier: str):
     af = prog.function(f"{C.INSP}.args")
     norm = any(T.contains(r, lambda s: T.is_call_to(s, f"{C.INSP}._normalize_typevars")) for _, r in P.returns(P.paths_of(prog, af)))
     rep.check(norm, "R15.2", af.qualname, af.loc, "args() normalises TypeVars on every path", "args() returns raw TypeVars", detail="args-normalise")
+    # unannotated constructor parameters are hinted Any (=> pass-through), whatever their default
+    hs = prog.function(f"{C.INSP}._hints_from_signature")
+    ok = True
+    seen = False
+    for p in P.paths_of(prog, hs):
+        empty = any(pol and g[0] == "cmp" and g[1] in ("is", "==") and T.contains(g[3], lambda s: s[0] == "attr" and s[2] == "empty" or T.refname(s) == "inspect.Parameter.empty") and T.contains(g[2], lambda s: s[0] == "attr" and s[2] == "annotation") for g, pol in p.guards())
+        if not empty:
+            continue
+        for e in p.events:
+            if e[0] == "setitem" and e[1][0] == "dict":
+                seen = True
+                if e[3] != ("ref", "typing.Any"):
+                    ok = False
+    rep.check(ok and seen, "R15.2", hs.qualname, hs.loc, "a parameter without annotation is hinted typing.Any (pass-through)", "a parameter without annotation is hinted something other than typing.Any (e.g. the class of its default): values of another class are converted or rejected instead of passing through", detail="unannotated-any")
+    # the producer/consumer pair of the graph: get_type_graph hands out a fresh sorter per call (shared with R12.2)
+    from ..report import Report as _R, absorb
+    from . import c12
+
+    sub = _R("C15", tier)
+    sub.rule("R12.2", "", 0)
+    c12.r12_2b(prog, sub)
+    for o in list(sub.obligations):
+        if "typelib.graph." not in o.key and "typelib.marshals.api" not in o.key and "typelib.unmarshals.api" not in o.key and "typelib.codecs" not in o.key:
+            sub.obligations.remove(o)
+    absorb(rep, sub, {"R12.2": "R15.3"})
     # R15.3
     for d in ("marshal", "unmarshal"):
         ff = c05.factory_facts(prog, d)
